@@ -18,6 +18,7 @@ type Engine struct {
 	prog           *ssa.Program
 	mainPkg        *ssa.Package
 	intrinsics     map[string]intrinsic
+	opaqueMethods  map[string]intrinsic // methods of modelled library objects reached through interfaces (kind.Method)
 	intrCache      sync.Map // *ssa.Function -> intrinsic (or nil marker)
 	allowCache     sync.Map
 	vocab          map[string]bool // every string constant of package main (operator vocabulary)
@@ -74,8 +75,68 @@ func (e *Engine) allowed(fn *ssa.Function) bool {
 	} else {
 		ok = allowedPkgs[p.Pkg.Path()]
 	}
+	if !ok && fn.Blocks != nil {
+		// small library helpers whose whole call closure is executable (bodies, intrinsics or pure
+		// functions only; no goroutines, channels, dynamic dispatch): run the real code
+		ok = e.closedSmall(fn, 0, map[*ssa.Function]bool{})
+	}
 	e.allowCache.Store(fn, ok)
 	return ok
+}
+
+func (e *Engine) closedSmall(fn *ssa.Function, depth int, seen map[*ssa.Function]bool) bool {
+	if seen[fn] {
+		return true
+	}
+	seen[fn] = true
+	if depth > 3 || len(seen) > 24 || fn.Blocks == nil {
+		return false
+	}
+	n := 0
+	for _, b := range fn.Blocks {
+		for _, in := range b.Instrs {
+			n++
+			if n > 120 {
+				return false
+			}
+			switch x := in.(type) {
+			case *ssa.Go, *ssa.Select, *ssa.Send, *ssa.MakeChan:
+				return false
+			case ssa.CallInstruction:
+				c := x.Common()
+				if c.IsInvoke() {
+					return false
+				}
+				switch callee := c.Value.(type) {
+				case *ssa.Builtin:
+				case *ssa.Function:
+					if e.intrinsicFor(callee) != nil {
+						continue
+					}
+					if callee.Blocks == nil {
+						return false
+					}
+					pk := callee.Pkg
+					if pk == nil && callee.Origin() != nil {
+						pk = callee.Origin().Pkg
+					}
+					if pk != nil && allowedPkgs[pk.Pkg.Path()] {
+						continue
+					}
+					if !e.closedSmall(callee, depth+1, seen) {
+						return false
+					}
+				case *ssa.MakeClosure:
+					if f, ok := callee.Fn.(*ssa.Function); !ok || !e.closedSmall(f, depth+1, seen) {
+						return false
+					}
+				default:
+					return false
+				}
+			}
+		}
+	}
+	return true
 }
 
 type noIntr struct{}
@@ -212,7 +273,11 @@ func (m *Machine) feasible(extra *Term) Result {
 		return Unsat
 	}
 	q := append(sliceIndependent(m.pc, extra), extra)
-	r, _ := m.solver.CheckOn(1, q, false)
+	first := 1
+	if hasBVArith(q) {
+		first = 0 // bit-vector arithmetic: z3 first
+	}
+	r, _ := m.solver.CheckOn(first, q, false)
 	return r
 }
 
@@ -786,3 +851,7 @@ var debugSMT = os.Getenv("GOSYM_DEBUG_SMT") != ""
 var debugOut = os.Stderr
 
 var debugChoose = os.Getenv("GOSYM_DEBUG_CHOOSE") != ""
+
+func hasBVArith(q []*Term) bool {
+	return len(subterms(q, func(t *Term) bool { return t.kind == KApp && !t.uf && strings.HasPrefix(t.op, "bv") })) > 0
+}
